@@ -562,7 +562,7 @@ class Materialiser:
             return scalar_py(ty["t"], spec), bytes.fromhex(spec["x"])
         if k == "str":
             if "cap" in spec:
-                return int(spec["cap"]), StrNode("", int(spec["cap"]))
+                return int(spec["cap"]), StrNode("", max(1, int(spec["cap"])))  # (capacity 0 still reserves the terminating NUL)
             # documented minimal capacity: data + NUL, rounded to the slot after the 8-byte header
             if spec.get("as_obj"):
                 from . import seams
